@@ -41,11 +41,15 @@ def _run(ctx, env):
         "(C12.negative_limits_act_as_zero) and exercised (-1, MinInt64) like the huge ones (MaxInt64 and neighbours)",
     ]
     ctx.assumptions += [
-        "atomicity of Write/Close/Sync under concurrency is taken from the sync.Mutex held for the whole method: the "
-        "Lean model is sequential and does NOT prove the clause `concurrent writers never interleave bytes within one "
-        "write`; supporting evidence only: the `stress` oracle (several goroutines, distinct self-describing records, "
-        "every retained file must parse into whole records and the retained stream must be a per-writer suffix), "
-        "also under the race detector",
+        "concurrency: C12.concurrent_writes_never_interleave / concurrent_bounds / concurrent_progress are theorems about "
+        "the generic mutex machine (Model/Mutex.lean, Lemmas/MutexLin.lean: every schedule is linearizable in "
+        "acquisition order) instantiated with the micro-steps of Write (byte by byte)/Close/Sync; what is ASSUMED is "
+        "only that the Go code brackets every method with the one sync.Mutex (Lock first, deferred Unlock) and that "
+        "sync.Mutex is a mutex. Tie for that assumption: the `stress` oracle — goroutines calling Write, Close and Sync "
+        "on one Rotator; its judge is the conclusion of the theorem (whole records, per-goroutine order, all records "
+        "while the oldest slot is unused, directory = sequential rotation rule applied to the records in the order "
+        "read back) — also under the race detector. C12.unbracketed_writes_tear / unbracketed_size_accounting_wrong show "
+        "the same machine without the bracket violates the clause",
         "no other process modifies the log directory between operations; file system calls do not fail (disk full, "
         "permissions) in the model — error paths of Write/rotate are exercised by the `errs` implementation oracle only",
         "the cost of one rotation is linear in MaxBackups (one rename attempt per slot): MaxBackups is exercised up to "
@@ -74,11 +78,13 @@ def _run(ctx, env):
                           "changes nothing on disk, and the same Rotator works again once the obstacle is gone")
     marks["errs_s"] = round(time.time() - t0, 1)
     ctx.impl_oracle("stress", {"quick": 36, "thorough": 400}, extra_env=env,
-                    label="concurrent writers: whole records, per-writer suffix, size and backup bounds")
+                    label="Write/Close/Sync from concurrent goroutines; judge = conclusion of "
+                          "C12.concurrent_writes_never_interleave: whole records, per-goroutine order, nothing lost "
+                          "while the oldest slot is unused, directory = sequential rotation rule on the order read back")
     marks["stress_s"] = round(time.time() - t0, 1)
     if ctx.harness("./cmd/c12", name="race", race=True):
         marks["racebuild_s"] = round(time.time() - t0, 1)
-        ctx.impl_oracle("stress", {"quick": 9, "thorough": 120}, name="race",
+        ctx.impl_oracle("stress", {"quick": 12, "thorough": 120}, name="race",
                         extra_env=dict(env, GORACE="halt_on_error=1 exitcode=66"),
                         label="the same under the race detector (a reported race kills the harness)")
     marks["end_s"] = round(time.time() - t0, 1)
